@@ -20,7 +20,7 @@ macro_rules! h_unused {
 }
 
 /// receiver that has already finalised a file transfer of `l` bytes and reported (NoError, Complete, Retained)
-fn finalised(l: usize, ch: &Chans, nreq: usize) -> RecvTransaction<ModelFs> {
+fn finalised(l: usize, ch: &Chans, nreq: usize, mode: TransmissionMode) -> RecvTransaction<ModelFs> {
     link_libc();
     verif::set_now(Duration::from_secs(100));
     let content: [u8; CAP] = kani::any();
@@ -44,8 +44,9 @@ fn finalised(l: usize, ch: &Chans, nreq: usize) -> RecvTransaction<ModelFs> {
         reqs.push(r);
         i += 1;
     }
-    let mut p = recv_parts(config(TransmissionMode::Acknowledged), NakProcedure::Deferred(Duration::ZERO), ch);
-    p.metadata = Some(metadata(true, l as u64, false, ChecksumType::Modular, reqs));
+    let mut p = recv_parts(config(mode), NakProcedure::Deferred(Duration::ZERO), ch);
+    // (unacknowledged receivers stay open after finalisation only when closure was requested)
+    p.metadata = Some(metadata(true, l as u64, mode == TransmissionMode::Unacknowledged, ChecksumType::Modular, reqs));
     p.status = TransactionStatus::Undefined;
     p.recv_state = VRecvState::Finished;
     p.delivery_code = DeliveryCode::Complete;
@@ -66,7 +67,7 @@ fn finalised(l: usize, ch: &Chans, nreq: usize) -> RecvTransaction<ModelFs> {
             filestore_response: resp,
             fault_location: None,
         },
-        kani::any(),
+        false,
     ));
     p.timer.ack = counter(3, 2, 100, 0, false, false);
     p.timer.inactivity = counter(10, 2, 100, 0, false, false);
@@ -95,15 +96,105 @@ fn assert_still_final(t: &RecvTransaction<ModelFs>, nreq: usize) {
     }
 }
 
-//# funcs=RecvTransaction::process_pdu(EoF),check_finished,finalize_receive,verify_checksum,prepare_ack_eof; bound=file length 3 (content symbolic), EOF checksum/size symbolic, 0 requests; stubs=S1,S2,S3,S5
+//# funcs=RecvTransaction::process_pdu(EoF),check_finished,finalize_receive,verify_checksum,prepare_ack_eof; bound=file length 3 (content symbolic), duplicate EOF with an arbitrary checksum, 0 requests; stubs=S1,S2,S3,S5
 th!(c04_q_late_eof, 8, {
     let ch = chans();
-    let mut t = finalised(3, &ch, 0);
-    let eof = EndOfFile { condition: Condition::NoError, checksum: kani::any(), file_size: kani::any(), fault_location: None };
-    kani::assume(eof.file_size <= 3);
-    let _ = t.process_pdu(directive(TransmissionMode::Acknowledged, Direction::ToReceiver, Operations::EoF(eof)));
+    let mut t = finalised(3, &ch, 0, TransmissionMode::Acknowledged);
+    // a DUPLICATE of the EOF: same size (a different size would be a new, contradicting PDU); the checksum is left
+    // arbitrary, it must not matter any more
+    let eof = EndOfFile { condition: Condition::NoError, checksum: kani::any(), file_size: 3, fault_location: None };
+    let r = t.process_pdu(directive(TransmissionMode::Acknowledged, Direction::ToReceiver, Operations::EoF(eof)));
+    forget(r);
     assert_still_final(&t, 0);
     kani::cover!(t.verif_ack().is_some(), "EOF acknowledged again");
+    forget(t);
+    forget(ch);
+});
+
+const A: TransmissionMode = TransmissionMode::Acknowledged;
+//# funcs=RecvTransaction::process_pdu(EoF) unacknowledged mode with closure,finalize_receive; bound=finalised 3-byte transfer waiting for the ACK of its Finished; a duplicate EOF arrives (checksum arbitrary); stubs=S1,S2,S3,S5
+th!(c04_q_late_eof_unack_closure, 8, {
+    let ch = chans();
+    let mut t = finalised(3, &ch, 0, TransmissionMode::Unacknowledged);
+    let eof = EndOfFile { condition: Condition::NoError, checksum: kani::any(), file_size: 3, fault_location: None };
+    let r = t.process_pdu(directive(TransmissionMode::Unacknowledged, Direction::ToReceiver, Operations::EoF(eof)));
+    forget(r);
+    assert_still_final(&t, 0);
+    kani::cover!(true, "end");
+    forget(t);
+    forget(ch);
+});
+//# funcs=RecvTransaction::process_pdu(FileData),store_file_data,check_finished,finalize_receive; bound=finalised 3-byte transfer; a straggling / duplicated data segment (1 arbitrary byte at offset 1) arrives; stubs=S1,S2,S3,S5
+th!(c04_q_late_file_data, 8, {
+    let ch = chans();
+    let mut t = finalised(3, &ch, 0, A);
+    let off: u64 = 1;
+    let r = t.process_pdu(filedata(A, off, vec![kani::any()]));
+    forget(r);
+    assert_still_final(&t, 0);
+    assert!(t.verif_progress() == 3, "progress unchanged by a duplicate");
+    kani::cover!(true, "end");
+    forget(t);
+    forget(ch);
+});
+//# funcs=RecvTransaction::process_pdu(Metadata|Prompt); bound=finalised 3-byte transfer; duplicated metadata arrives; stubs=S1,S2,S3,S5
+fn late_md_prompt(md_case: bool) {
+    let ch = chans();
+    let mut t = finalised(3, &ch, 0, A);
+    if md_case {
+        let md = MetadataPDU {
+            closure_requested: kani::any(),
+            checksum_type: ChecksumType::Modular,
+            file_size: kani::any(),
+            source_filename: "s".into(),
+            destination_filename: "d".into(),
+            options: vec![],
+        };
+        let r = t.process_pdu(directive(A, Direction::ToReceiver, Operations::Metadata(md)));
+        forget(r);
+    } else {
+        let pr = PromptPDU { nak_or_keep_alive: NakOrKeepAlive::KeepAlive };
+        let r = t.process_pdu(directive(A, Direction::ToReceiver, Operations::Prompt(pr)));
+        forget(r);
+    }
+    assert_still_final(&t, 0);
+    kani::cover!(true, "end");
+    forget(t);
+    forget(ch);
+}
+th!(c04_q_late_metadata, 8, { late_md_prompt(true) });
+//# funcs=RecvTransaction::process_pdu(Prompt); bound=finalised 3-byte transfer; a keep-alive prompt arrives; stubs=S1,S2,S3,S5
+th!(c04_q_late_prompt, 8, { late_md_prompt(false) });
+//# funcs=RecvTransaction::process_pdu(EoF),check_finished,finalize_receive; bound=finalised transfer that executed 2 filestore requests; a duplicate EOF arrives: the requests are not executed again; stubs=S1,S2,S3,S5
+th!(c04_q_late_eof_with_requests, 10, {
+    let ch = chans();
+    let mut t = finalised(3, &ch, 2, A);
+    let eof = EndOfFile { condition: Condition::NoError, checksum: kani::any(), file_size: 3, fault_location: None };
+    let r = t.process_pdu(directive(A, Direction::ToReceiver, Operations::EoF(eof)));
+    forget(r);
+    assert_still_final(&t, 2);
+    kani::cover!(true, "end");
+    forget(t);
+    forget(ch);
+});
+
+//# funcs=RecvTransaction::process_pdu(EoF),check_finished in phase Cancelled after a completed delivery; bound=delivered 3-byte transfer whose Finished was never acknowledged (ACK limit -> cancelled); a retransmitted EOF arrives; stubs=S1,S2,S3,S5
+th!(c04_q_late_eof_after_ack_limit, 8, {
+    let ch = chans();
+    let t0 = finalised(3, &ch, 0, A);
+    let mut p = t0.verif_into_parts();
+    p.recv_state = VRecvState::Cancelled;
+    p.condition = Condition::PositiveLimitReached;
+    let mut t = RecvTransaction::verif_from_parts(p);
+    let eof = EndOfFile { condition: Condition::NoError, checksum: kani::any(), file_size: 3, fault_location: None };
+    let r = t.process_pdu(directive(A, Direction::ToReceiver, Operations::EoF(eof)));
+    forget(r);
+    assert!(verif::ind_count_kind(verif::K_FINISHED) == 0, "no second Finished indication");
+    assert!(verif::ind_count_kind(verif::K_FAULT) == 0, "no file-integrity fault for a delivered file");
+    assert!(t.verif_delivery_code() == DeliveryCode::Complete && t.verif_file_status() == FileStatusCode::Retained, "outcome of the delivery unchanged");
+    assert!(writes(DST) == 0 && opens(DST) == 0, "delivered file untouched");
+    assert!(unsafe { REQ_CALLS } == 0);
+    kani::cover!(true, "end");
     forget(t);
     forget(ch);
 });
